@@ -1128,7 +1128,7 @@ impl MemoryStore {
 
     /// Append a provider record to the list stored under `key` (the caller keeps the list sorted by distance),
     /// fresh or already expired; `local` additionally registers the key as provided by the local node.
-    pub fn push_provider_verif(&mut self, key: Key, provider: PeerId, addresses: Vec<Multiaddr>, expired: bool, local: bool) {
+    pub fn push_provider_verif(&mut self, key: Key, provider: PeerId, addresses: Vec<multiaddr::Multiaddr>, expired: bool, local: bool) {
         let now = std::time::Instant::now();
         let expires = if expired { now - Duration::from_secs(1) } else { now + self.config.provider_ttl };
         if local {
